@@ -153,7 +153,8 @@ def main(ctx):
               "client_open", "client_rejected", "token_strings", "url_cases", "segment_execs",
               "interop_pairs", "limit_sequences", "limit_rejected", "limit_admitted",
               "deferred_cases", "deferred_late_resolution", "deferred_client_cases",
-              "proxy_cases", "proxy_open", "proxy_refused", "proxy_timeout", "deferred_more_data"):
+              "proxy_cases", "proxy_open", "proxy_refused", "proxy_timeout", "deferred_more_data",
+              "segment_burst_execs"):
         ctx.require(n)
 
 
@@ -571,14 +572,16 @@ def _job_segment(a, env):
         inputs = None
         trailing = F.encode(1, b"hi") + F.encode(9, b"")
 
-    def run(raw, cuts):
+    def run(raw, cuts, burst=False):
+        """burst (asyncio): all segments arrive in ONE loop iteration (several data_received calls
+        before the adapter's consumer runs)"""
         ep = ws.Endpoint(role)
         if role == "client":
             ep.conn.settle()
             req = bytes(ep.t.written)
             ep.take()
         for seg in cut(raw, cuts):
-            ep.feed(seg)
+            ep.feed(seg, not burst)
         ep.conn.settle()
         return ep
 
@@ -600,8 +603,12 @@ def _job_segment(a, env):
                 cutsets += [[c, d] for c in range(1, n, 3) for d in range(c + 1, n, 7)]
             else:
                 cutsets += [[c, c + 1] for c in range(1, n - 1, 2)]
-            for cuts in cutsets:
-                ep = run(data, cuts)
+            runs = [(c_, False) for c_ in cutsets]
+            if env.get("fw") == "aio":
+                runs += [(c_, True) for c_ in cutsets]
+                stats["segment_burst_execs"] = stats.get("segment_burst_execs", 0) + len(cutsets)
+            for cuts, burst in runs:
+                ep = run(data, cuts, burst)
                 evals += 1
                 stats["segment_execs"] += 1
                 stats["cases"] += 1
